@@ -31,10 +31,10 @@ ASSUMPTIONS = [
     'node-level set-back of rules with namespace prefixes passes the sheet namespaces along, as the cssText setters document',
 ]
 MIN_EVENTS = {
-    'quick': {'oracle.sheet-roundtrip': 3000, 'oracle.node-roundtrip': 14000, 'oracle.shipped': 45, 'oracle.edited': 250},
-    'thorough': {'oracle.sheet-roundtrip': 60000, 'oracle.node-roundtrip': 300000, 'oracle.shipped': 45, 'oracle.edited': 5000},
+    'quick': {'oracle.sheet-roundtrip': 3000, 'oracle.node-roundtrip': 14000, 'oracle.shipped': 45, 'oracle.edited': 1200},
+    'thorough': {'oracle.sheet-roundtrip': 60000, 'oracle.node-roundtrip': 300000, 'oracle.shipped': 45, 'oracle.edited': 24000},
 }
-HOSTILE_CLASSES = ['string', 'string-backslash', 'string-newline', 'url', 'url-backslash', 'comment', 'ident', 'nonascii']
+HOSTILE_CLASSES = ['string', 'string-backslash', 'string-newline', 'url', 'url-backslash', 'url-control', 'comment', 'ident', 'nonascii']
 
 
 def norm(x):
@@ -151,6 +151,9 @@ def dom_features(proj):
                     items(b[1])
             elif k == 'fontface':
                 items(r[1])
+            elif k == 'import' and r[2] and r[2][0][1] is None and r[2][0][0] is None and r[2][0][2]:
+                # (recorded for C02: an @import whose first media query starts with "(" is dropped by the parser)
+                feats.add('import.first-query-starts-with-paren')
 
     rules(proj, False)
     return feats
@@ -307,7 +310,7 @@ def shipped(ctx, cssutils):
             node_roundtrips(ctx, cssutils, sheet, feats, 'shipped:' + fn, prefs={'resolveVariables': False})
 
 
-EDITS = ['setprop', 'removeprop', 'appendsel', 'insertrule', 'deleterule', 'setmedia', 'addcomment', 'setvalue']
+EDITS = ['setprop', 'removeprop', 'appendsel', 'insertrule', 'deleterule', 'setmedia', 'setmedia', 'addcomment', 'setvalue', 'importedit', 'importedit', 'blocktext', 'selectortext', 'pageedit', 'encoding']
 
 
 def random_edit(rng, cssutils, sheet):
@@ -352,12 +355,67 @@ def random_edit(rng, cssutils, sheet):
             sheet.deleteRule(i)
             return [kind, i]
         if kind == 'setmedia':
-            ms = [r for r in rs if r.type == r.MEDIA_RULE]
+            ms = [r for r in rs if r.type in (r.MEDIA_RULE, r.IMPORT_RULE)]
             if not ms:
                 return None
             t = rng.choice(['print', 'tv, screen and (color)', 'not tty', 'all'])
-            rng.choice(ms).media.mediaText = t
+            r = rng.choice(ms)
+            if rng.random() < 0.5:
+                r.media.mediaText = t
+            else:
+                r.media = t
+            return [kind, t, type(r).__name__]
+        if kind == 'importedit':
+            ms = [r for r in rs if r.type == r.IMPORT_RULE]
+            if not ms:
+                return None
+            r = rng.choice(ms)
+            what = rng.choice(['href', 'name', 'media-append', 'media-delete'])
+            if what == 'href':
+                r.href = rng.choice(['n.css', 'a b.css', 'q(1).css', 'x"y.css'])
+            elif what == 'name':
+                r.name = rng.choice(['nm', 'a "b"', None, ''])
+            elif what == 'media-append':
+                r.media.appendMedium(rng.choice(['tv', 'print and (color)', 'handheld']))
+            else:
+                if r.media.length < 2:
+                    return None  # (an emptied list and the list 'all' are the same media; how long each is belongs to C17)
+                r.media.deleteMedium(r.media.item(0))
+            return [kind, what]
+        if kind == 'blocktext':
+            srs = [r for r in rs if r.type in (r.STYLE_RULE, r.PAGE_RULE, r.FONT_FACE_RULE)]
+            if not srs:
+                return None
+            t = rng.choice(['top:1px;left:2px', 'color:red;color:RGB(1,2,3)!important', '/*c*/content:"a;b"', 'src:url("a b.woff")', ''])
+            rng.choice(srs).style.cssText = t
             return [kind, t]
+        if kind == 'selectortext':
+            srs = [r for r in rs if r.type == r.STYLE_RULE]
+            if not srs:
+                return None
+            t = rng.choice(['x > y, z', 'a[b="c d"]', '*:not(p)', 'h1::first-line', 'q.r#s'])
+            rng.choice(srs).selectorText = t
+            return [kind, t]
+        if kind == 'pageedit':
+            ps = [r for r in rs if r.type == r.PAGE_RULE]
+            if not ps:
+                return None
+            r = rng.choice(ps)
+            what = rng.choice(['selector', 'addbox'])
+            if what == 'selector':
+                r.selectorText = rng.choice([':first', 'nm:left', '', ':right'])
+            else:
+                # (a box name the page does not have yet: the parser merges repeated boxes, the DOM API does not - a normalisation, not a loss)
+                have = {getattr(m, 'margin', None) for m in r.cssRules}
+                free = [b for b in ('@top-left', '@bottom-center', '@right-middle', '@top-right-corner') if b not in have]
+                if not free:
+                    return None
+                r.add('%s{content:"e%d"}' % (rng.choice(free), rng.randint(0, 3)))
+            return [kind, what]
+        if kind == 'encoding':
+            e = rng.choice(['utf-8', 'ascii', 'iso-8859-1', None])
+            sheet.encoding = e
+            return [kind, e]
         if kind == 'addcomment':
             sheet.add(cssutils.css.CSSComment('/* e %d */' % rng.randint(0, 9)))
             return [kind]
@@ -422,14 +480,17 @@ def run_worker(ctx):
             ctx.sample({'stream': 'hostile', 'class': hc, 'source': text})
     shipped(ctx, cssutils)
     # DOMs after accepted edits
-    n = 500 if quick else 12000
+    n = 2500 if quick else 50000
     for i in range(n):
         if not ctx.mine(i):
             continue
         rng = ctx.rng('edit', i)
         g = G.Gen(rng, namespaces=False, max_stmts=4)
         stmts = g.sheet()
-        text = G.render(stmts, G.NEUTRAL_STYLE, ctx.rng('erender', i))
+        # (also commented / wildly spaced sources: edits meet item sequences with comments in odd places)
+        text, rfeats = G.render2(stmts, G.style_with(rng.choice(['neutral', 'comments', 'ws', 'comments'])), ctx.rng('erender', i))
+        if rfeats:
+            continue
         core.canonical_state(cssutils)
         sheet = parser.parseString(text)
         edits = []
@@ -457,6 +518,19 @@ def replay(ctx, case):
         roundtrip_sheet(ctx, cssutils, sheet, 'replay', feats, {'source': case['source']})
         if case.get('nodes'):
             node_roundtrips(ctx, cssutils, sheet, feats, 'replay')
+        return
+    if case.get('dom_script'):
+        # witnesses of states that only DOM edits reach
+        sheet = cssutils.CSSParser().parseString(case['source'])
+        imp = [r for r in sheet.cssRules if r.type == r.IMPORT_RULE]
+        for op in case['dom_script']:
+            if op == 'import0.media.delete-first':
+                imp[0].media.deleteMedium(imp[0].media.item(0))
+            elif op.startswith('import0.media.text:'):
+                imp[0].media.mediaText = op.split(':', 1)[1]
+            elif op.startswith('import0.media.set:'):
+                imp[0].media = op.split(':', 1)[1]
+        roundtrip_sheet(ctx, cssutils, sheet, 'replay-edited', feats, {'source': case['source'], 'dom_script': case['dom_script']})
         return
     if case.get('source') is not None and not case.get('edits'):
         sheet = cssutils.CSSParser().parseString(case['source'])
